@@ -126,12 +126,15 @@ pub enum CustomReport {
     Missing,
     UnknownKey,
     Unexpected(String),
+    /// the function returns an error type of its own: (type name, message)
+    Foreign(&'static str, String),
 }
 
 pub fn missing_fn_report(f: &str, key: &str) -> CustomReport {
     match f {
         "missing_mf" => CustomReport::Missing,
         "missing_unexp" => CustomReport::Unexpected(format!("custom missing <{key}>")),
+        "missing_foreign" => CustomReport::Foreign("Needed", format!("<{key}> is mandatory")),
         _ => panic!("model: unknown missing_field_error function {f}"),
     }
 }
@@ -140,6 +143,7 @@ pub fn unknown_fn_report(f: &str, key: &str) -> CustomReport {
     match f {
         "unknown_uk" => CustomReport::UnknownKey,
         "unknown_unexp" => CustomReport::Unexpected(format!("custom unknown <{key}>")),
+        "unknown_foreign" => CustomReport::Foreign("Denied", format!("no such key <{key}>")),
         _ => panic!("model: unknown deny_unknown_fields function {f}"),
     }
 }
